@@ -259,6 +259,9 @@ E2EPlan(user, mo) ==
   \cup {[op |-> "subid", k |-> "m", name |-> e.name, sig |-> e.sig, ret |-> "", byid |-> e.uid, ans |-> IF Subscribable(mo, e.uid) THEN {Ok(e)} ELSE {Missing}] : e \in OfKind(user, "m")}
   \cup {[op |-> "setname", k |-> "p", name |-> e.name, sig |-> e.sig, ret |-> "", byid |-> 0, ans |-> IF SetAccepted(mo, e.name, e.sig) THEN Code(mo, "p", e.name, e.sig) ELSE {Missing}] : e \in OfKind(user, "p")}
   \cup {[op |-> "setid", k |-> "p", name |-> e.name, sig |-> e.sig, ret |-> "", byid |-> e.uid, ans |-> IF SetAccepted(mo, e.name, e.sig) THEN Code(mo, "p", e.name, e.sig) ELSE {Missing}] : e \in OfKind(user, "p")}
+  \* objectImpl.Property takes the name only: an id (which setProperty accepts) is refused.  What the code does, not
+  \* a demand: the harness reports the refusal under metalookup/outside/
+  \cup {[op |-> "getid", k |-> "p", name |-> e.name, sig |-> e.sig, ret |-> "", byid |-> e.uid, ans |-> {Missing}] : e \in OfKind(user, "p")}
   \* the value travels with the bare signature although the property declares the tuple "(T)"
   \cup {[op |-> "setname", k |-> "p", name |-> e.name, sig |-> "s", ret |-> "", byid |-> 0, ans |-> IF SetAccepted(mo, e.name, "s") THEN Code(mo, "p", e.name, "s") ELSE {Missing}] : e \in {x \in OfKind(user, "p") : x.sig = "(s)"}}
 
